@@ -50,7 +50,7 @@ CLAIMED = {
           "Wall clock only separates 1 s from 8 s; Cram attribution of a document timeout not judged per test."),
  "C15": E("end-to-end + sequential model: result kinds and exit status of `scrut test -r json` on documents with skip codes (default, per document, per test, under --cram-compat) at every position",
           "Exploration: 400 runs (quick) / 6000 (thorough).",
-          "Includes (prepend/append) excluded; differing skip codes inside one script out of scope."),
+          "Included documents (front-matter and -P/-A) around skipped documents are part of the runs; not decided: a custom document code together with an included test that exits with it, inline codes inside included documents, includes under --cram-compat, differing skip codes inside one script."),
  "C16": E("layering algebra on TestCaseConfig/DocumentConfig vs 'first layer that sets it' (in-process, parser level) + end-to-end behaviour probes (which stream is recorded, CR LF, $VAR, document time limit via hook) under CLI flags, inline config, front-matter defaults, format defaults",
           "Exploration: 1e5 layerings + 200 e2e runs (quick).",
           "Environment judged on the first test of a document only (later tests inherit exported state, C12)."),
